@@ -211,8 +211,15 @@ class SetInterp(object):
                 return wrap(r)
         if isinstance(e, (ast.List, ast.Tuple, ast.Set)):
             m = 0
-            for x in e.elts:
-                m |= self.elem(x)
+            try:
+                for x in e.elts:
+                    m |= self.elem(x)
+            except Unmodelled:
+                # not a display of symbolic elements: ``(a, f(b))`` is the tuple of the values of its items (``x, y = a, f(b)``)
+                if isinstance(e, (ast.List, ast.Tuple)) and e.elts and not any(isinstance(x, (ast.Starred, ast.Constant)) for x in e.elts):
+                    vals = [self._ev(x) for x in e.elts]
+                    return tuple(vals) if isinstance(e, ast.Tuple) else vals
+                raise
             return SV(m)
         if isinstance(e, ast.Constant) and e.value in ((), None):
             return SV(0)
